@@ -28,8 +28,10 @@ for name in sorted(os.listdir(SEEDED)):
                 lines = [l.strip()[:300] for l in r.stdout.splitlines() if l.startswith("  " + pid) or l.startswith("ANALYSIS-ERROR")]
                 hits[pid] = {"exit": r.returncode, "findings": lines[:4]}
         res[name] = {"applied": True, "property": meta.get("property"), "summary": meta.get("summary"), "caught_by": hits,
-                     "caught": bool(hits), "caught_by_own_property_check": meta.get("property") in hits}
-        print(f"{name:28s} property={meta.get('property')} caught_by={sorted(hits)}")
+                     "caught": any(h["exit"] == 1 for h in hits.values()), "caught_by_own_property_check": hits.get(meta.get("property"), {}).get("exit") == 1,
+                     "analysis_error_only": [p for p, h in hits.items() if h["exit"] != 1]}
+        print(f"{name:28s} property={meta.get('property')} violation_by={sorted(p for p, h in hits.items() if h['exit'] == 1)} analysis_error={sorted(p for p, h in hits.items() if h['exit'] != 1)}"
+              + ("" if res[name]["caught_by_own_property_check"] else "   <-- NOT caught by its own check"))
     finally:
         subprocess.run(["git", "-C", "/repo", "checkout", "--", "."], check=True)
 json.dump(res, open(f"{SEEDED}/RESULTS.json", "w"), indent=1)
